@@ -67,6 +67,12 @@ CHECKS = {
             "(thorough 3) further calls; classification, attribution, Terminated afterwards, frozen time and no model "
             "code are checked on the single-threaded executor (all pick orders) and on the 2-worker executor.",
             "On the multi-threaded executor the thread schedule is the OS's; the verdicts asserted do not depend on it.", "5/C11"),
+    "C12": ("seqx", "model_checking", "bounded-exhaustive operation sequences on the real queue vs VecDeque reference (explicit enumeration, every trace replayed on the implementation)",
+            "Every sequence of push/pop/close up to depth 12 (thorough 15) on the real channel/queue.rs for capacities 1-5 "
+            "(powers of two and not; index wrap-around and the len() carry are reached several times) against a VecDeque: "
+            "return values, len() and is_closed() after every operation.",
+            "Sequential part only in this fragment; the concurrent parts (memory model, wake-up protocol) are decided by the "
+            "loom and shuttle engines when their fragments are present in the evidence.", "5/C12"),
     "C14": ("simx", "exploration", S_TECH,
             "Requestor and QuerySource with 0..3 (thorough 4) repliers over every vector of connection modes (plain, map, "
             "two filters) and both request parities under every pick order (every completion order): reply vector equals "
@@ -77,9 +83,17 @@ CHECKS = {
             "mailboxes, under every pick order: one init per model, inside SimInit::init, before its first handler; early "
             "messages processed exactly once; names parent.child in contexts and in Panic/NoRecipient/Deadlock reports.",
             S_NOTE, "5/C16"),
-    "C17": ("simx", "exploration", S_TECH,
-            "A model emitting 1..5 events through one output to two buffers, a slot and a second model, under every pick "
-            "order: per-sender order and content of the sinks.", S_NOTE + " The sink data structures themselves are decided by engine Q when present.", "5/C17"),
+    "C17": ("seqx+simx", "model_checking", "bounded-exhaustive write/read/open/close sequences on the real sinks vs VecDeque/Option reference, plus stateless DFS over pick orders for model-to-sink order",
+            "EventBuffer (capacities 1-3, initially open or closed, two writer handles) and EventSlot: every sequence to "
+            "depth 7/8 (thorough 9/10) of write/next/drain/open/close against VecDeque-with-eviction / Option. Plus: a model "
+            "emitting 1..5 events through one output to two buffers, a slot and a second model, under every pick order: "
+            "per-sender order and content of the sinks.", S_NOTE, "5/C17"),
+    "C20": ("seqx", "model_checking", "bounded-exhaustive operation sequences on the real priority queues vs sorted-vector reference (explicit enumeration, every trace replayed on the implementation)",
+            "PriorityQueue: every sequence of insert(k in 0..2)/pull/peek to depth 9 (thorough 11). IndexedPriorityQueue: "
+            "every sequence to depth 8 (thorough 9) of insert/pull/peek+peek_key/extract(any key issued so far, stale ones "
+            "included)/extract(key forged from the slot of one issued key and the epoch of another)/extract(never-issued "
+            "key); slot recycling is forced by the small alphabet; return values and len() compared after every step.",
+            "grpc/key_registry.rs is a thin wrapper (feature grpc, not built by default) and is covered through the queue it wraps.", "5/C20"),
     "C18": ("simx", "exploration", S_TECH,
             "All driver sequences (depth 4/5) of scheduling and stepping commands under 17 scripted clocks (lag above / "
             "equal / below tolerance, no tolerance, at the first four synchronisations): one synchronize per new time, "
@@ -129,6 +143,8 @@ def main():
             "add_only": True,
         },
         "engines": [
+            {"name": "seqx", "path": "engines/seqx", "serves_properties": ["C12", "C17", "C20"],
+             "kind_free_text": "bounded-exhaustive operation-sequence enumeration on the real data structures (source files bound by #[path]) against reference models"},
             {"name": "simx", "path": "engines/simx", "serves_properties": sorted(k for k, v in CHECKS.items() if "simx" in v[0]),
              "kind_free_text": "stateless exhaustive exploration of the real crate on its single-threaded executor (pick hook), bounded-exhaustive driver sequences, reference-model oracles"},
         ],
